@@ -16,7 +16,7 @@ from core import hexf
 META = dict(
     level="exploration",
     technique="deviation-bounded exhaustive product lattice over THDM mass-/gauge-basis input, getters compared with the input and round trip mass basis <-> gauge basis",
-    text="Every point of a finite lattice (all assignments deviating in <= 2 (quick) / <= 3 (thorough) dimensions from 6 mass-basis and 3 gauge-basis base points; dimensions: Higgs masses incl. degenerate and inverted hierarchies, sin(beta-alpha) of both signs, tan(beta) 0.05..200, lambda_6/7, m12^2, 6 Yukawa types, 3 CKM matrices, zeta_f/Delta_f/Pi_f alphabets) is constructed; the reported masses, angle, tan(beta), lambda_6/7, m12^2, MW, MZ, Goldstone position, fermion masses and quark mixing are compared with the input, and the model is rebuilt in the other basis from what it reports. Exhaustive within the lattice; says nothing about inputs off the lattice.",
+    text="Every point of a finite lattice (all assignments deviating in <= 2 (quick) / <= 3 (thorough) dimensions from 6 mass-basis and 3 gauge-basis base points; dimensions: SM input (MW, MZ, alpha_em, alpha_s, fermion masses, m_hSM; <= 2), Higgs masses incl. degenerate and inverted hierarchies, sin(beta-alpha) of both signs, tan(beta) 0.05..200, lambda_6/7, m12^2, 6 Yukawa types, 3 CKM matrices, zeta_f/Delta_f/Pi_f alphabets) is constructed; the reported masses, angle, tan(beta), lambda_6/7, m12^2, MW, MZ, Goldstone position, fermion masses and quark mixing are compared with the input, and the model is rebuilt in the other basis from what it reports. Exhaustive within the lattice; says nothing about inputs off the lattice.",
     note="trusted: the harness' use of the public getters, gm2calc::SM getters as the 'SM input', double arithmetic of the closed-form tolerance scales; quark mixing is read as conj(Vu) Vd^T (mass matrix = V^T diag(m) U) and compared through |V_ij| and the Jarlskog invariant",
     design_ref="3/C08")
 
@@ -27,8 +27,9 @@ ZETAS = [-100.0, -1.0, 0.0, 1.0, 100.0]
 MVALS = [10.0, 125.0, 126.0, 400.0, 1e4]
 PAIRS = [(a, b) for a in MVALS for b in MVALS if a <= b]
 
-DIMS_M = ["mm", "mA", "mHp", "sba", "tb", "l6", "l7", "m122", "yt", "ckm",
-          "zu", "zd", "zl", "Du", "Dd", "Dl", "Pu", "Pd", "Pl"]
+DIMS_M0 = ["mm", "mA", "mHp", "sba", "tb", "l6", "l7", "m122", "yt", "ckm",
+           "zu", "zd", "zl", "Du", "Dd", "Dl", "Pu", "Pd", "Pl"]
+DIMS_M = DIMS_M0 + T.SM_DIMS        # + SM input: MW, MZ, alpha_em(MZ), alpha_s, nine fermion masses, m_hSM
 ALPHA_M = {
     "mm": PAIRS, "mA": [10.0, 300.0, 1e4], "mHp": [10.0, 300.0, 1e4],
     "sba": [-1.0, -0.9, -0.3, 0.0, 0.3, 0.7, 0.995, 1.0],
@@ -40,6 +41,7 @@ ALPHA_M = {
     "Du": T.MAT_NAMES, "Dd": T.MAT_NAMES, "Dl": T.MAT_NAMES,
     "Pu": T.MAT_NAMES, "Pd": T.MAT_NAMES, "Pl": T.MAT_NAMES,
 }
+ALPHA_M.update(T.SM_ALPHA)
 BASES_M = [
     dict(mm=(125.0, 400.0), mA=300.0, mHp=300.0, sba=0.995, tb=3.0, l6=0.0, l7=0.0, m122=4e4, yt=2, ckm=1,
          zu=0.0, zd=0.0, zl=0.0, Du="0", Dd="0", Dl="0", Pu="0", Pd="0", Pl="0"),
@@ -56,8 +58,9 @@ BASES_M = [
 ]
 
 LAMS = [-2.0, -0.5, 0.0, 0.5, 2.0]
-DIMS_G = ["l1", "l2", "l3", "l4", "l5", "l6", "l7", "tb", "m122", "yt", "ckm",
-          "zu", "zd", "zl", "Du", "Dd", "Dl", "Pu", "Pd", "Pl"]
+DIMS_G0 = ["l1", "l2", "l3", "l4", "l5", "l6", "l7", "tb", "m122", "yt", "ckm",
+           "zu", "zd", "zl", "Du", "Dd", "Dl", "Pu", "Pd", "Pl"]
+DIMS_G = DIMS_G0 + T.SM_DIMS
 ALPHA_G = dict(ALPHA_M)
 ALPHA_G.update({"l%d" % i: LAMS for i in range(1, 8)})
 ALPHA_G["m122"] = [-1e4, 0.0, 4e4, 1e6]
@@ -71,13 +74,25 @@ BASES_G = [
 ]
 
 
+SM_ALT_BASE = dict(T.SM_ALT, mhsm=150.0)
+for _i, _b in enumerate(BASES_M):
+    _b.update(SM_ALT_BASE if _i in (1, 4) else T.SM_BASE)
+for _i, _b in enumerate(BASES_G):
+    _b.update(SM_ALT_BASE if _i == 1 else T.SM_BASE)
+
+
 def to_case(a, basis):
     if basis == "M":
         p = [a["mm"][0], a["mm"][1], a["mA"], a["mHp"], a["sba"], a["l6"], a["l7"], a["tb"], a["m122"]]
     else:
         p = [a["l%d" % i] for i in range(1, 8)] + [a["tb"], a["m122"]]
     return T.case(basis, p, ytype=a["yt"], run=1, ckm=a["ckm"], z=(a["zu"], a["zd"], a["zl"]),
-                  D=(a["Du"], a["Dd"], a["Dl"]), P=(a["Pu"], a["Pd"], a["Pl"]))
+                  D=(a["Du"], a["Dd"], a["Dl"]), P=(a["Pu"], a["Pd"], a["Pl"]), sm=T.sm_from(a), mhsm=a.get("mhsm"))
+
+
+def from_compact(item):
+    basis, vals = item
+    return to_case(dict(zip(DIMS_M if basis == "M" else DIMS_G, vals)), basis)
 
 
 def with_basis(c, basis, p):
@@ -155,6 +170,22 @@ def check_common(acc, c, S, tag, m2max, m2min):
     """clauses that hold for every constructed model: MW, MZ, Goldstones, fermions, CKM, stored inputs"""
     ty = T.TYPES[c["ytype"]]
     R = m2max / m2min if m2min > 0 else float("inf")
+    # the SM object the model carries is the SM input that was sent (exact)
+    sent = dict(c.get("sm") or {})
+    if c["mhsm"] not in ("-", "auto"):
+        sent["mh"] = float.fromhex(c["mhsm"])
+    echo = {"mw": S[T.SM_MW], "mz": S[T.SM_MZ], "aem": S[T.SM_AEM], "as": S[T.SM_AS], "mh": S[T.SM_MH]}
+    for f_, sl_ in (("mu", T.SM_MU), ("md", T.SM_MD), ("ml", T.SM_ML)):
+        for i_ in range(3):
+            echo["%s%d" % (f_, i_)] = S[sl_][i_]
+    for k_, v_ in sorted(sent.items()):
+        if k_ in echo:
+            acc.cmp("stored", "%s:sm-input:%s" % (tag, k_), abs(echo[k_] - v_), 0.0, "SM input %s sent %r, model.get_sm() has %r" % (k_, v_, echo[k_]))
+    # gauge sector: alpha_em and v of the model are those of its SM input
+    acc.cmp("MW,MZ", "%s:alpha_em" % tag, abs(S[T.ALPHA_EM] - S[T.SM_AEM]), 1e-13 * S[T.SM_AEM],
+            "alpha_em of the model %r, SM input alpha_em(MZ) %r (err %%(err).3g > %%(tol).3g)" % (S[T.ALPHA_EM], S[T.SM_AEM]))
+    acc.cmp("MW,MZ", "%s:v" % tag, abs(S[T.V] - S[T.SM_V]), 1e-13 * S[T.SM_V],
+            "v of the model %r, SM::get_v() %r (err %%(err).3g > %%(tol).3g)" % (S[T.V], S[T.SM_V]))
     # vector bosons
     for nm, got, ref in (("MW", S[T.MW], S[T.SM_MW]), ("MZ", S[T.MZ], S[T.SM_MZ])):
         acc.cmp("MW,MZ", "%s:%s" % (tag, nm), abs(got - ref), 1e-13 * ref,
@@ -225,11 +256,15 @@ def gauge_input_from(S):
     return list(S[T.LAM]) + [S[T.TB], S[T.M122]]
 
 
-def evaluate_points(items):
-    """items: list of (case, devcount).  Runs the passes and the oracle.
+def evaluate_compact(chunk):
+    return evaluate_points([from_compact(it) for it in chunk])
+
+
+def evaluate_points(cases, history=True):
+    """cases: list of case dicts evaluated in ONE harness process per pass.  Runs the passes and the oracle.
     returns dict(n, thrown, fails, worst, keys, exc_classes)"""
-    cases = [it[0] for it in items]
     r1 = T.run_cases(cases, "S")
+    hist = T.history_mismatches(cases, "S", r1) if history and len(cases) > 1 else []
     alive = [i for i, r in enumerate(r1) if not r.exc]
     # pass 2: other basis from what the model reports
     c2 = []
@@ -242,7 +277,15 @@ def evaluate_points(items):
     c3 = [with_basis(cases[alive[k]], "M", mass_input_from(r2[k].S)) for k in idx3]
     r3 = dict(zip(idx3, T.run_cases(c3, "S"))) if c3 else {}
 
-    out = dict(n=len(cases), thrown=0, illcond=0, fails=[], worst={}, keys=set(), exc={}, passes=len(cases) + len(c2) + len(c3))
+    out = dict(n=len(cases), thrown=0, illcond=0, fails=[], worst={}, keys=set(), exc={},
+               passes=len(cases) * (2 if history and len(cases) > 1 else 1) + len(c2) + len(c3), smsets=set())
+    for i, what in hist:
+        # replay data: the case plus a case of the same process with a different SM input (or simply another one)
+        other = next((c for c in cases if c.get("sm") != cases[i].get("sm")), cases[0 if i else -1])
+        out["fails"].append(("history-dependence", "result depends on what was constructed before in the same process: %s; %s" % (what, brief(cases[i])),
+                             {"case": cases[i], "other": other}))
+    for c in cases:
+        out["smsets"].add(json.dumps(c.get("sm"), sort_keys=True) + c["mhsm"])
     pos2 = {i: k for k, i in enumerate(alive)}
     for i, c in enumerate(cases):
         r = r1[i]
@@ -321,25 +364,31 @@ def evaluate_points(items):
             if key in seen:
                 continue
             seen.add(key)
-            out["fails"].append((key, what, c))
+            out["fails"].append((key, what, {"case": c}))
         quad = int(math.floor(S[T.ALPHA_H] / (math.pi / 2)))
         sgn = (S[T.SBA] > 0) - (S[T.SBA] < 0)
         tbc = (S[T.TB] > 1) - (S[T.TB] < 1)
         out["keys"].add((c["basis"], c["ytype"], c["ckm"], sgn, tbc, quad, degenerate,
-                         S[T.MAH1] < S[T.MHH0], S[T.MHM1] < S[T.MHH0]))
+                         S[T.MAH1] < S[T.MHH0], S[T.MHM1] < S[T.MHH0], bool(c.get("sm")) or c["mhsm"] != "-"))
     return out
 
 
 def brief(c):
-    return "%s p=%s type=%s ckm=%d zeta=%s Delta=%s Pi=%s" % (
-        c["basis"], ["%g" % x for x in c["p"]], T.TYPES[c["ytype"]], c["ckm"], c["z"], c["D"], c["P"])
+    return "%s p=%s type=%s ckm=%d zeta=%s Delta=%s Pi=%s SM=%s mhSM=%s" % (
+        c["basis"], ["%g" % x for x in c["p"]], T.TYPES[c["ytype"]], c["ckm"], c["z"], c["D"], c["P"],
+        c.get("sm") or "default", c["mhsm"])
+
+
+# SM inputs cycled through the core product: default / complete alternate set / only MW, MZ changed
+CORE_SM = [T.SM_BASE, SM_ALT_BASE, dict(T.SM_BASE, mw=78.5, mz=93.0)]
 
 
 def core_product(full):
     """full product over the Higgs-sector dimensions of the mass basis (the part the mixing-angle
-    extraction depends on); remaining dimensions as in base point 1"""
+    extraction depends on); remaining dimensions as in base point 1, SM input cycling"""
     b = BASES_M[0]
     l67 = ALPHA_M["l6"] if full else [b["l6"]]
+    n = 0
     for mm in ALPHA_M["mm"]:
         for mA in ALPHA_M["mA"]:
             for mHp in ALPHA_M["mHp"]:
@@ -350,43 +399,54 @@ def core_product(full):
                                 for l7 in l67:
                                     a = dict(b)
                                     a.update(mm=mm, mA=mA, mHp=mHp, sba=sba, tb=tb, m122=m122, l6=l6, l7=l7)
+                                    a.update(CORE_SM[n % 3])
+                                    n += 1
                                     yield a
 
 
-def lattice(dmax_m, dmax_g, full_core=False):
-    """deterministic list of (case, deviation count); duplicates between base points removed"""
+def lattice(quick):
+    """deterministic list of compact items (basis, values in DIMS order); duplicates removed.
+    quick: <= 2 deviations over all dimensions (incl. the SM input);
+    thorough: <= 3 deviations over the non-SM dimensions + <= 2 over all dimensions."""
     seen, items, sizes = set(), [], []
-    n0 = 0
-    for a in core_product(full_core):
-        c = to_case(a, "M")
-        seen.add(json.dumps(c, sort_keys=True))
-        items.append((c, -1))
+
+    def add(a, basis):
+        it = (basis, tuple(a[d] for d in (DIMS_M if basis == "M" else DIMS_G)))
+        h = hash(it)
+        if h in seen:
+            return
+        seen.add(h)
+        items.append(it)
+
+    for a in core_product(not quick):
+        add(a, "M")
     sizes.append(("M-core-product", len(items), len(items)))
-    for basis, dims, alpha, bases, dmax in (("M", DIMS_M, ALPHA_M, BASES_M, dmax_m), ("G", DIMS_G, ALPHA_G, BASES_G, dmax_g)):
+    plans = [("all", 2)] if quick else [("non-SM", 3), ("all", 2)]
+    for basis, dims0, dims, alpha, bases in (("M", DIMS_M0, DIMS_M, ALPHA_M, BASES_M), ("G", DIMS_G0, DIMS_G, ALPHA_G, BASES_G)):
         for b in bases:
-            n0 = len(items)
-            for a, combo in T.devprod(dims, b, alpha, dmax):
-                c = to_case(a, basis)
-                k = json.dumps(c, sort_keys=True)
-                if k in seen:
-                    continue
-                seen.add(k)
-                items.append((c, len(combo)))
-            sizes.append((basis, T.devprod_size(dims, b, alpha, dmax), len(items) - n0))
+            for which, dmax in plans:
+                n0 = len(items)
+                dd = dims if which == "all" else dims0
+                for a, combo in T.devprod(dd, b, alpha, dmax):
+                    add(a, basis)
+                sizes.append(("%s/%s/d<=%d" % (basis, which, dmax), T.devprod_size(dd, b, alpha, dmax), len(items) - n0))
     return items, sizes
 
 
 def run(ctx):
     T.exe()
-    dm, dg = (2, 2) if ctx.quick else (3, 3)
-    items, sizes = lattice(dm, dg, full_core=not ctx.quick)
-    ctx.note("lattice", [{"basis": b, "enumerated": n, "new": m} for b, n, m in sizes])
-    chunks = T.chunks(items, 400)
+    dm = dg = 2 if ctx.quick else 3
+    items, sizes = lattice(ctx.quick)
+    ctx.note("lattice", [{"part": b, "enumerated": n, "new": m} for b, n, m in sizes])
+    # strided chunks: every harness process sees all parts of the lattice, i.e. models with
+    # different SM inputs in varying order; each chunk is also run in reversed order (bitwise equal)
+    chunks = T.strided_chunks(items, 400)
     tot = dict(n=0, thrown=0, illcond=0, passes=0)
     worst, exc = {}, {}
-    nthrown_by_basis = {"M": [0, 0], "G": [0, 0]}
+    min_smsets = None
     with mp.Pool(min(16, os.cpu_count() or 4)) as pool:
-        for ch, o in zip(chunks, pool.imap(evaluate_points, chunks)):
+        for ch, o in zip(chunks, pool.imap(evaluate_compact, chunks)):
+            min_smsets = len(o["smsets"]) if min_smsets is None else min(min_smsets, len(o["smsets"]))
             for k in ("n", "thrown", "illcond", "passes"):
                 tot[k] += o[k]
             for k, v in o["worst"].items():
@@ -395,13 +455,17 @@ def run(ctx):
                 exc[k] = exc.get(k, 0) + v
             for key in sorted(o["keys"]):
                 ctx.nontrivial(key)
-            for key, what, c in o["fails"]:
-                ctx.fail(key, what, {"case": c})
+            for key, what, data in o["fails"]:
+                ctx.fail(key, what, data)
             if ctx.out_of_time("lattice"):
                 break
     ctx.evals(tot["passes"])
-    for c, _ in items[:2] + items[len(items) // 2:len(items) // 2 + 2] + items[-2:]:
-        ctx.sample(brief(c))
+    for it in items[:2] + items[len(items) // 2:len(items) // 2 + 2] + items[-2:]:
+        ctx.sample(brief(from_compact(it)))
+    ctx.note("min_distinct_SM_inputs_per_harness_process", min_smsets)
+    print("[C08] %d harness processes per pass, each with >= %d distinct SM input sets, each run forward and reversed (bitwise compared)" % (len(chunks), min_smsets or 0))
+    if (min_smsets or 0) < 2:
+        ctx.cap("a harness process saw only one SM input set")
     surv = 1.0 - (tot["thrown"] + tot["illcond"]) / max(1, tot["n"])
     print("[C08] lattice points %d (constructions %d), rejected by the constructor %d (%s), ill-conditioned (massless state) %d, checked %.1f%%"
           % (tot["n"], tot["passes"], tot["thrown"], exc, tot["illcond"], 100 * surv))
@@ -412,11 +476,13 @@ def run(ctx):
         "tolerance on masses 1e-10 x m^2_max/m^2_min (relative), m^2 over {mh,mH,mA,mH+,MW,MZ}; on the angle the same times (mH^2+mh^2)/(mH^2-mh^2)",
         "angle clause skipped at exactly mh == mH; (sin,cos) ~ (-sin,-cos) identified when |cos(beta-alpha)| < 1e-7",
         "lambda_1..5 after the round trip compared with tolerance 1e-10 x sum of |terms| of the closed-form inversion",
+        "SM input (MW, MZ, alpha_em(MZ), alpha_s, nine fermion masses, m_hSM) is a lattice dimension; the 'SM input' a model is compared with is what was sent (echo of model.get_sm() checked exactly)",
+        "every harness process evaluates models with different SM inputs; the first pass of every process is repeated in reversed order and must agree bitwise",
         "fermion masses: 1e-10 relative + 1e-13 (m_max + v max|Pi_f| in the general model) absolute (cancellation v1 Gamma_f + v2 Pi_f)"]
     return ctx.finish(
-        "full product mh<=mH x mA x mH+ x sin(beta-alpha) x tan(beta) x m12^2 (thorough: x lambda_6 x lambda_7) + all assignments with <= %d (mass basis, 6 base points) / <= %d (gauge basis, 3 base points) deviating dimensions; "
+        "full product mh<=mH x mA x mH+ x sin(beta-alpha) x tan(beta) x m12^2 (thorough: x lambda_6 x lambda_7; SM input cycling over 3 sets) + all assignments with <= %d (mass basis, 6 base points) / <= %d (gauge basis, 3 base points) deviating dimensions (SM-input dimensions: <= 2); "
         "each accepted point: mass basis -> gauge basis from reported lambda_i -> mass basis from reported spectrum (gauge lattice: gauge -> mass); "
-        "distinct = (basis, Yukawa type, CKM, sign sin(beta-alpha), tan(beta) <,=,> 1, quadrant of alpha_h, mh==mH, mA<mh, mH+<mh)" % (dm, dg),
+        "distinct = (basis, Yukawa type, CKM, sign sin(beta-alpha), tan(beta) <,=,> 1, quadrant of alpha_h, mh==mH, mA<mh, mH+<mh, SM input non-default)" % (dm, dg),
         {"lattice_points": tot["n"], "constructions": tot["passes"], "rejected_by_constructor": tot["thrown"],
          "rejected_classes": exc, "skipped_massless_state": tot["illcond"], "fraction_checked": round(surv, 4),
          "worst_err_over_tol": {k: float("%.3g" % v) for k, v in sorted(worst.items())}})
@@ -426,8 +492,9 @@ def replay(ctx, path):
     T.exe()
     d = json.load(open(path))
     c = d["data"]["case"]
-    o = evaluate_points([(c, 0)])
-    if o["thrown"]:
+    cases = [d["data"]["other"], c] if d["data"].get("other") else [c]
+    o = evaluate_points(cases)
+    if o["thrown"] == len(cases):
         print("replay: constructor rejects the point now: %s" % o["exc"])
         return 0
     hit = [f for f in o["fails"] if f[0] == d["key"]] or o["fails"]
